@@ -45,6 +45,17 @@ pub fn set_hash_order(f: Option<fn(&mut Vec<usize>)>) {
     HASH_ORDER.store(f.map_or(0, |f| f as usize), Ordering::SeqCst);
 }
 
+/// Addresses of this module's own atomics (the seam registry and the fault switch). A harness that
+/// treats every atomic operation of the library as a scheduling point wants to leave these out:
+/// they are read at every hook site and belong to the plumbing, not to the library.
+pub fn seam_addresses() -> [usize; 3] {
+    [
+        &SCHED_POINT as *const AtomicUsize as usize,
+        &HASH_ORDER as *const AtomicUsize as usize,
+        &INJECTED_PANIC as *const std::sync::atomic::AtomicU64 as usize,
+    ]
+}
+
 /// A point inside a cell's construction at which a scheduler may preempt.
 #[inline]
 pub(crate) fn sched_point(site: u32) {
